@@ -72,7 +72,7 @@ func astNodeToSchemaRule(node jschemaLib.RuleASTNode) Rule {
 	return Rule{
 		TokenType:   RuleTokenType(node.TokenType),
 		ScalarValue: node.Value,
-		Note:        node.Comment,
+		Note:        noteLineBreaks(node.Comment),
 		Children:    children,
 	}
 }
